@@ -228,7 +228,7 @@ func worldRoutes(w *World) {
 			"deep.x.site.example.test", "foo.example.test", "unknown.test", "www.other.example.test", "site.example.test"}
 		host := hostChoices[r.Intn(len(hostChoices))]
 		path := []string{"/", "/a", "/ab", "/a/b", "/a/b/c/d", "/abc", "/zzz", "/a/bb"}[r.Intn(8)]
-		absolute := r.Intn(6) == 0
+		absolute := r.Intn(4) == 0
 		var hs []string
 		authUser, authPwd, proxyUser, proxyPwd := "", "", "", ""
 		// credentials: none, right for some live route, wrong password, other user's
@@ -269,6 +269,10 @@ func worldRoutes(w *World) {
 		}
 		if proxyUser != "" || proxyPwd != "" {
 			hs = append(hs, "Proxy-Authorization: "+basic(proxyUser, proxyPwd))
+		} else if absolute && r.Intn(2) == 0 {
+			// a Proxy-Authorization header that yields no user at all
+			hs = append(hs, "Proxy-Authorization: "+[]string{"Bearer abcdef", "Basic !!!notbase64", "Basic " + base64.StdEncoding.EncodeToString([]byte(":onlypw")),
+				"Basic " + base64.StdEncoding.EncodeToString([]byte("nocolon")), "basic", ""}[r.Intn(6)])
 		}
 		marker := fmt.Sprintf("m%d", r.U64())
 		target := path
